@@ -111,6 +111,10 @@ ROLES = {
                           lambda f: bool(_calls(f, 'update_distance')) and f.params == ['self']),
     '_set_adaptive_quantile': ('elfi.methods.inference.samplers:AdaptiveThresholdSMC', 'method',
                                lambda f: _has(f, '.densratio.fit(') and f.params == ['self']),
+    '_make_store_for': ('elfi.store:OutputPool', 'method',
+                        lambda f: f.params == ['self', 'node'] and len(_returns(f)) == 1 and
+                        not _has(f, 'self.stores[') and not f.is_property and
+                        f.name not in ('get_store', 'has_store', 'remove_store')),
     '_run': ('elfi.executor:Executor', 'method',
              lambda f: f.params[-1:] == ['G'] and _has(f, '.predecessors(') and
              _has(f, "['param']")),
